@@ -175,3 +175,50 @@ contract(MS + 'ModelState.point_labels.setter', props=['C13'],
                   ("membership-rederived-immediately", "implies(len(new_labels) > 0 and (old(membership_ok(self)) or "
                    "not old(new_labels == self._point_labels)), membership_ok(self))"),
                   "unchanged(new_labels)", "unchanged(self.clusters)"])
+
+contract(MS + 'ModelState.shallow_copy', props=['C13'], params=dict(self='obj:ModelState'), returns='obj:ModelState',
+         requires=["not isnone(self.clusters)"],
+         ensures=["fresh(result)", "same(result.arguments, self.arguments)", "same(result._point_labels, self._point_labels)",
+                  "same(result.stacked_training_data, self.stacked_training_data)",
+                  "same(result.point_log_likelihood, self.point_log_likelihood)",
+                  "result.label_assignment_cost == self.label_assignment_cost",
+                  # a NEW list holding the same cluster objects: replacing an element of the copy cannot reach the source
+                  ("cluster-list-is-a-fresh-list-of-the-same-objects", "fresh(result.clusters) and len(result.clusters) == len(self.clusters) "
+                   "and forall(0, len(self.clusters), lambda k: same(result.clusters[k], self.clusters[k]))"),
+                  "unchanged(self, self.clusters)"])
+
+contract(MS + 'ModelState.deep_copy', props=['C13'], params=dict(self='obj:ModelState'), returns='obj:ModelState',
+         requires=["not isnone(self.clusters)", "not isnone(self._point_labels)", "not isnone(self.arguments)",
+                   "forall(0, len(self.clusters), lambda k: not isnone(self.clusters[k]) and not isnone(self.clusters[k]._member_points))"],
+         ghost={'comps': {1: dict(kind='list[obj:ClusterParameters]',
+                                  inv=["len(_comp1) == _k", "forall(0, _k, lambda k: fresh(_comp1[k]) and not isnone(_comp1[k]))",
+                                       "forall(0, _k, lambda k: fresh(_comp1[k]._member_points) and fresh(_comp1[k].train_inverse) and "
+                                       "fresh(_comp1[k].computed_covariance) and fresh(_comp1[k].empirical_covariance) and "
+                                       "fresh(_comp1[k].stacked_data_mean) and fresh(_comp1[k].inverse_covariance))"])}},
+         ensures=["fresh(result)",
+                  ("shares-nothing-mutable", "fresh(result.clusters) and fresh(result._point_labels) and fresh(result.arguments) and "
+                   "fresh(result.stacked_training_data) and fresh(result.point_log_likelihood) and "
+                   "forall(0, len(result.clusters), lambda k: fresh(result.clusters[k]) and fresh(result.clusters[k]._member_points) and "
+                   "fresh(result.clusters[k].train_inverse) and fresh(result.clusters[k].computed_covariance) and "
+                   "fresh(result.clusters[k].empirical_covariance) and fresh(result.clusters[k].stacked_data_mean))"),
+                  "len(result.clusters) == len(self.clusters)", "eqcontent(result._point_labels, self._point_labels)",
+                  "unchanged(self, self.clusters, self._point_labels)"])
+
+_UA = ['sparsity_weight', 'iteration_limit', 'label_switching_cost', 'min_cluster_size', 'min_meaningful_covariance',
+       'num_clusters', 'num_processors', 'window_size', 'biased_covariance']
+contract(AR + 'UserArguments.shallow_copy', props=['C13'], params=dict(self='obj:UserArguments'), returns='obj:UserArguments',
+         ensures=["fresh(result)"] + ["result.%s == self.%s" % (f, f) for f in _UA] + ["unchanged(self)"])
+contract(AR + 'UserArguments.deep_copy', props=['C13'], params=dict(self='obj:UserArguments'), returns='obj:UserArguments',
+         ensures=["fresh(result)"] + ["result.%s == self.%s" % (f, f) for f in _UA] + ["unchanged(self)"])
+# array-valued hyper-parameters (matrix lambda, per-pair beta): a deep copy must not share them with its source
+contract(AR + 'UserArguments.deep_copy#arrays', props=['C13'], params=dict(self='obj:UserArguments'), returns='obj:UserArguments',
+         ghost={'schema': {'UserArguments.sparsity_weight': 'arr2[real]', 'UserArguments.label_switching_cost': 'arr1[real]'}},
+         requires=["not isnone(self.sparsity_weight)", "not isnone(self.label_switching_cost)"],
+         ensures=["fresh(result)",
+                  ("shares-nothing-mutable", "fresh(result.sparsity_weight) and fresh(result.label_switching_cost)"),
+                  "eqcontent(result.sparsity_weight, self.sparsity_weight)",
+                  "eqcontent(result.label_switching_cost, self.label_switching_cost)", "unchanged(self)"])
+contract(AR + 'UserArguments.shallow_copy#arrays', props=['C13'], params=dict(self='obj:UserArguments'), returns='obj:UserArguments',
+         ghost={'schema': {'UserArguments.sparsity_weight': 'arr2[real]', 'UserArguments.label_switching_cost': 'arr1[real]'}},
+         ensures=["fresh(result)", "same(result.sparsity_weight, self.sparsity_weight)",
+                  "same(result.label_switching_cost, self.label_switching_cost)", "unchanged(self)"])
